@@ -205,7 +205,7 @@ func c46Key(rt *rapid.T) uint64 {
 }
 
 func TestC46_Arrange(t *testing.T) {
-	vk.Check(t, 100000, func(rt *rapid.T) {
+	vk.Check(t, 200000, func(rt *rapid.T) {
 		m := c46GenMachine(rt)
 		allowed := c46Subset(rt, "allowed", m.CPUs, true)
 		perf := c46Subset(rt, "perf", allowed, false)
@@ -355,9 +355,17 @@ func c46KernelList(set []int) string {
 }
 
 func TestC46_PipelineFakeSysfs(t *testing.T) {
-	base := t.TempDir()
+	// fake sysfs trees are small and short-lived: prefer tmpfs (the disk is slow under load), fall back
+	// to the working directory of the run; never /tmp
+	base, err := os.MkdirTemp("/dev/shm", "verif-c46-")
+	if err != nil {
+		if base, err = os.MkdirTemp(".", "c46-sysfs-"); err != nil {
+			vk.Infra(t, "cannot create a scratch directory: %v", err)
+		}
+	}
+	defer os.RemoveAll(base)
 	n := 0
-	vk.Check(t, 1200, func(rt *rapid.T) {
+	vk.Check(t, 6000, func(rt *rapid.T) {
 		n++
 		root := filepath.Join(base, fmt.Sprintf("case%d", n))
 		defer os.RemoveAll(root)
@@ -609,7 +617,7 @@ func c46Mutate(rt *rapid.T, s string) string {
 }
 
 func TestC46_CPUList(t *testing.T) {
-	vk.Check(t, 100000, func(rt *rapid.T) {
+	vk.Check(t, 200000, func(rt *rapid.T) {
 		set := c46GenSet(rt)
 		printed := c46KernelList(set)
 		s := printed
